@@ -579,6 +579,8 @@ func UnwindCallStackToFunc(stack *CallStack, f *ssa.Function) *CallStack {
 // the summary is constructed by running the intra-procedural dataflow analysis.
 // If the summary was not already in the flow graph of the state, it creates a new summary, adds it to the flow graph
 // and then runs the intra-procedural dataflow analysis.
+// Returns nil if there is no summary for the function in the flow graph (e.g. the function is not reachable) and the
+// function has no predefined summary.
 func BuildSummary(s *AnalyzerState, function *ssa.Function) *SummaryGraph {
 	summary := s.FlowGraph.Summaries[function]
 	if summary != nil && summary.Constructed {
@@ -587,6 +589,9 @@ func BuildSummary(s *AnalyzerState, function *ssa.Function) *SummaryGraph {
 	if summary == nil {
 		id := GetUniqueFunctionID()
 		summary = NewPredefinedSummary(function, id)
+		if summary == nil {
+			return nil
+		}
 		s.FlowGraph.Summaries[function] = summary
 	}
 	logger := s.Logger
